@@ -125,15 +125,24 @@ func runC19(c c19Case) evid.Outcome {
 	emptyPossible := false // an empty file was saved since: "no routes" is an acceptable loaded version too
 	failedSeen, recovered := false, false
 	history := []string{"v0"}
+	// Saves are atomic (write beside, then rename), as editors do them: a reload that is in flight
+	// reads the old or the new text, never a truncated one. (With os.WriteFile a racing reload can
+	// read the file empty or cut short; what it then loads is a version nobody saved, about which
+	// the property says nothing - the first two-quick-saves histories produced exactly that.)
+	write := func(text string) {
+		tmp := file + ".tmp"
+		os.WriteFile(tmp, []byte(text), 0o644)
+		os.Rename(tmp, file)
+	}
 	save := func(i int, kind string) {
 		switch kind {
 		case "deleted":
 			os.Remove(file)
 		case "valid":
 			version++
-			os.WriteFile(file, []byte(c19Source("valid", version)), 0o644)
+			write(c19Source("valid", version))
 		default:
-			os.WriteFile(file, []byte(c19Source(kind, 1000+i)), 0o644)
+			write(c19Source(kind, 1000+i))
 		}
 	}
 	account := func(kind string) {
